@@ -1837,6 +1837,8 @@ StorageReflectSession :: CloneDataNodeSubtree(const DataNode & node, const Strin
       DataNode * clone = GetDataNode(destPath);
       if (clone)
       {
+         while((clone->GetIndex())&&(clone->GetIndex()->HasItems())) MRETURN_ON_ERROR(clone->RemoveIndexEntryAt(clone->GetIndex()->GetLastValidIndex(), this));  // in case the destination node already existed and had an index
+
          const uint32 idxLen = index->GetNumItems();
          uint32 writeIdxCounter = 0;
          for (uint32 i=0; i<idxLen; i++)
